@@ -29,9 +29,26 @@ def gen_case(run, i):
     family = 'dyadic' if south != 'none' else rng.choice(['dyadic', 'decimal'])
     proc = ['auto', 'auto', 'ref', 'src'][i % 4]
     src, ref = rasters.pair_geometry(rng, family, 'auto', max_src=24, margin=(1, 3), avoid_aligned_edges=True)
+    crs = 'metric'
+    if i % 6 == 5:
+        # geographic stratum: the same integer geometry in units of 2^-15 degree (EPSG:4326, pixels of 2^-13..2^-11 degree:
+        # sizes that vanish when rounded to a few decimals), near 25 E 30 S; exact binary fractions
+        crs, family = 'geographic', 'dyadic'
+        src, ref = rasters.pair_geometry(rng, 'dyadic', 'auto', max_src=24, margin=(1, 3), avoid_aligned_edges=True)
+        dx, dy = 25 * 2 ** 15 - ref.x0 + (ref.x0 % 64), -30 * 2 ** 15 - ref.ytop + (ref.ytop % 64)
+        u = rasters.Fraction(1, 2 ** 15)
+        src = rasters.Grid(src.x0 + dx, src.ytop + dy, src.px, src.py, src.w, src.h, u)
+        ref = rasters.Grid(ref.x0 + dx, ref.ytop + dy, ref.px, ref.py, ref.w, ref.h, u)
+        if i % 12 == 5 and src.px < ref.px:
+            # make the source the coarser image (auto must then pick the source grid)
+            ps, pr = ref.px, src.px
+            sw, sh = max(5, src.w * src.px // ps), max(5, src.h * src.py // ps)
+            rw = -(-(src.x0 + sw * ps - ref.x0) // pr) + 2
+            rh = -(-(ref.ytop - (src.ytop - sh * ps)) // pr) + 2
+            src, ref = rasters.Grid(src.x0, src.ytop, ps, ps, sw, sh, u), rasters.Grid(ref.x0, ref.ytop, pr, pr, rw, rh, u)
     nsb, nrb = rng.choice([(1, 1), (2, 3), (3, 3), (3, 4)])
     sel = ['default', 'ref-order', 'subset'][(i // 4) % 3] if nsb > 1 else 'default'
-    return dict(i=i, family=family, proc=proc, src=src.to_dict(), ref=ref.to_dict(), nsb=nsb, nrb=nrb, sel=sel,
+    return dict(i=i, family=family, crs=crs, proc=proc, src=src.to_dict(), ref=ref.to_dict(), nsb=nsb, nrb=nrb, sel=sel,
                 south=south, model=rng.choice(['gain', 'gain-blk-offset', 'gain-offset']),
                 kernel=rng.choice([(3, 3), (3, 5), (5, 3)]), halvings=rng.choice([0, 2]), dtype=rng.choice(['float32', 'int16']),
                 threads=rng.choice([1, 2]))
@@ -79,9 +96,11 @@ def run(run: common.Run):
             for variant in (['north'] + ([case['south']] if case['south'] != 'none' else [])):
                 d = tmp / f'c18_{i}_{variant}'
                 d.mkdir()
+                the_crs = rasters.CRS3857 if case['crs'] == 'metric' else rasters.CRS4326
                 pair = fusion.write_pair(d, 'in', src, ref, s, r, sv, None,
-                                         src_kw=dict(band_tags=stags, south_up=variant in ('src', 'both')),
-                                         ref_kw=dict(band_tags=rtags, descriptions=rdesc, south_up=variant in ('ref', 'both')))
+                                         src_kw=dict(band_tags=stags, south_up=variant in ('src', 'both'), crs=the_crs),
+                                         ref_kw=dict(band_tags=rtags, descriptions=rdesc, south_up=variant in ('ref', 'both'),
+                                                     crs=the_crs))
                 proc_ref = (case['proc'] == 'ref') or (case['proc'] == 'auto' and src.px <= ref.px)
                 res, hv = fusion.run_fuse_blocks(case['halvings'], src, ref, proc_ref, pair.src_path, pair.ref_path, d / 'out.tif',
                                                  model=case['model'], kernel_shape=case['kernel'], proc_crs=case['proc'], param=True,
@@ -98,6 +117,7 @@ def run(run: common.Run):
         res, pair = outs['north']
         run.hist[f"proc requested={case['proc']} used={res.proc_crs}"] += 1
         run.hist[f"south-up={case['south']}"] += 1
+        run.hist[f"crs={case['crs']}"] += 1
         matched_r = list(res.ref_bands)
         if case['south'] != 'none' or matched_r != list(range(1, len(matched_r) + 1)):
             run.nontrivial.add((str(case['src']), case['south'], tuple(matched_r), case['proc']))
@@ -105,7 +125,7 @@ def run(run: common.Run):
         prof = res.profile
         tr = tuple(prof['transform'])[:6]
         etr = tuple(src.transform)[:6]
-        if (prof['width'], prof['height']) != (src.w, src.h) or any(abs(a - b) > 1e-9 for a, b in zip(tr, etr)) or prof['crs'] != rasters.CRS3857:
+        if (prof['width'], prof['height']) != (src.w, src.h) or any(abs(a - b) > 1e-9 for a, b in zip(tr, etr)) or prof['crs'] != the_crs:
             bad = f'corrected image grid {prof["width"]}x{prof["height"]} {tr} is not the north-up source grid {src.w}x{src.h} {etr}'
         elif prof['count'] != len(res.src_bands):
             bad = f'corrected image has {prof["count"]} bands for {len(res.src_bands)} matched source bands'
@@ -124,6 +144,12 @@ def run(run: common.Run):
                 if res.descriptions[b] != rdesc[rbi - 1]:
                     bad = f'corrected band {b + 1} description {res.descriptions[b]}, matched reference band has {rdesc[rbi - 1]}'
                     break
+        # the processing grid is the requested one, and under `auto` the coarser image (the reference when equal)
+        if not bad:
+            want = case['proc'] if case['proc'] != 'auto' else ('ref' if src.px * src.py <= ref.px * ref.py else 'src')
+            if res.proc_crs != want:
+                bad = (f'processing grid resolved to {res.proc_crs} for proc_crs={case["proc"]} with source pixels of {float(src.px * src.unit)} '
+                       f'and reference pixels of {float(ref.px * ref.unit)} {"degree" if case["crs"] == "geographic" else "m"}')
         # parameter image grid = processing grid
         if not bad:
             pg = ref if res.proc_crs == 'ref' else src
